@@ -172,6 +172,82 @@ func ruleR162(c *Ctx) {
 		return
 	}
 	info := a.fg.TypesInfo
+	// wherever the scopes are stacked: AddMap is never applied to a scope that already holds the arguments. AddMap
+	// only lets constants and static functions of the scope below it through, so with the arguments underneath, the
+	// map's own name is no longer the argument but an attribute of itself (this becomes this.this)
+	{
+		n := 0
+		for _, f := range a.fg.Syntax {
+			for _, d := range f.Decls {
+				fd, ok := d.(*ast.FuncDecl)
+				if !ok || fd.Body == nil {
+					continue
+				}
+				ast.Inspect(fd.Body, func(x ast.Node) bool {
+					call, ok := x.(*ast.CallExpr)
+					if !ok {
+						return true
+					}
+					sel, ok := ast.Unparen(call.Fun).(*ast.SelectorExpr)
+					if !ok || sel.Sel.Name != "AddMap" || !isNamed(info.TypeOf(sel.X), modPath, "Identifiers") {
+						return true
+					}
+					n++
+					k := fmt.Sprintf("%s#AddMap-below-arguments[%d]", declName(a.fg, fd), n)
+					holdsArgs := false
+					seen := map[types.Object]bool{}
+					var origin func(e ast.Expr, depth int)
+					origin = func(e ast.Expr, depth int) {
+						if depth > 4 || holdsArgs {
+							return
+						}
+						if containsNode(e, func(y ast.Node) bool {
+							cc, ok := y.(*ast.CallExpr)
+							if !ok {
+								return false
+							}
+							s2, ok := ast.Unparen(cc.Fun).(*ast.SelectorExpr)
+							return ok && s2.Sel.Name == "AddArgs"
+						}) {
+							holdsArgs = true
+							return
+						}
+						ast.Inspect(e, func(y ast.Node) bool {
+							id, ok := y.(*ast.Ident)
+							if !ok {
+								return true
+							}
+							obj := info.ObjectOf(id)
+							if v, isVar := obj.(*types.Var); !isVar || v.IsField() || seen[obj] {
+								return true
+							}
+							seen[obj] = true
+							ast.Inspect(fd.Body, func(z ast.Node) bool {
+								as, ok := z.(*ast.AssignStmt)
+								if !ok || len(as.Lhs) != len(as.Rhs) || as.Pos() > call.Pos() {
+									return true
+								}
+								for i, l := range as.Lhs {
+									if li, ok := l.(*ast.Ident); ok && info.ObjectOf(li) == obj && ast.Unparen(as.Rhs[i]) != ast.Expr(call) {
+										origin(as.Rhs[i], depth+1)
+									}
+								}
+								return true
+							})
+							return true
+						})
+					}
+					origin(sel.X, 0)
+					if holdsArgs {
+						c.Violation(k, call.Pos(), "AddMap is applied to a scope that already holds the arguments (AddArgs below AddMap): AddMap lets only constants and static functions of the scope below it through, so the name of the map itself is no longer the argument but is looked up as an attribute of the map (this.size() becomes this.this.size(): 'key this not found')")
+					} else {
+						c.OK(k, call.Pos(), "AddMap wraps a scope without arguments; the arguments are added on top")
+					}
+					return true
+				})
+			}
+		}
+	}
 	addMap := LookupMethod(root, "Identifiers", "AddMap")
 	addArgs := LookupMethod(root, "Identifiers", "AddArgs")
 	gwm := c.FuncDecl(a.fg, "FunctionGenerator", "GenerateWithMap")
